@@ -324,6 +324,82 @@ pub fn run(r: &Report) {
         r.sample(sub, json!({"input_hex": "05 8101", "start": 1, "op": "array_iter()", "via_probe": true}));
     }
 
+    // ---- (A'') wide items: more elements / bytes / chunks than an 8- or 16-bit counter holds
+    {
+        let sub = "long-items";
+        r.space(
+            sub,
+            true,
+            &format!("arrays and maps (definite and indefinite) of n elements, byte and text strings of n bytes, chunked strings of n one-byte chunks, for n in {{255, 256, 257, 65535, 65536, 65537}}, x suffix in {{none, ff}} x {} operations, and the last 3 strict prefixes of each", ops.len()),
+            2,
+        );
+        let mut items: Vec<Item> = Vec::new();
+        for n in [255usize, 256, 257, 65535, 65536, 65537] {
+            let elems: Vec<Item> = (0..n).map(|i| Item::uint((i % 3) as u64)).collect();
+            items.push(Item::array(elems.clone()));
+            items.push(Item::Array(elems, Len::Indef));
+            let entries: Vec<(Item, Item)> = (0..n).map(|i| (Item::uint(i as u64), Item::uint((i % 2) as u64))).collect();
+            items.push(Item::map(entries.clone()));
+            items.push(Item::Map(entries, Len::Indef));
+            let payload: Vec<u8> = (0..n).map(|i| b'a' + (i % 26) as u8).collect();
+            items.push(Item::bytes(&payload));
+            items.push(Item::Text(payload.clone(), StrForm::Def(W::min_for(n as u64))));
+            items.push(Item::Bytes(payload.clone(), StrForm::Indef(vec![(1, W::Imm); n])));
+            items.push(Item::Text(payload.clone(), StrForm::Indef(vec![(1, W::Imm); n])));
+            // the elements of a fixed-size array / the fields of Duration, Range, SocketAddr: zeros
+            items.push(Item::array(vec![Item::uint(0); n]));
+            items.push(Item::Array(vec![Item::uint(0); n], Len::Indef));
+        }
+        mcx::par::run_shards(
+            items.len(),
+            |i| {
+                let item = &items[i];
+                let enc = item.to_bytes();
+                let mut evals = 0u64;
+                let mut nontrivial = 0u64;
+                let short = format!("{} ({} bytes)", item.diag().chars().take(40).collect::<String>(), enc.len());
+                for op in &ops {
+                    let ex = expect(&op.kind, item, enc.len());
+                    for suf in [&[][..], &[0xff][..]] {
+                        let mut buf = enc.clone();
+                        buf.extend_from_slice(suf);
+                        mcx::slot::case(op.name, &buf[..buf.len().min(64)]);
+                        evals += 1;
+                        match mcx::par::guard(|| (op.run)(&buf, 0)) {
+                            Ok(out) => {
+                                if out.res.is_ok() {
+                                    nontrivial += 1;
+                                }
+                                if let Err(msg) = judge(op, &ex, item, &out) {
+                                    r.fail(sub, None, json!({"op": op.name, "item": short, "input_hex_prefix": hex(&buf[..16])}), msg.chars().take(300).collect::<String>());
+                                }
+                            }
+                            Err(p) => r.fail(sub, None, json!({"op": op.name, "item": short, "input_hex_prefix": hex(&buf[..16])}), format!("panicked on well-formed input: {}", p)),
+                        }
+                    }
+                    if matches!(ex.verdict, Verdict::MustOk(_)) && matches!(op.kind, OpKind::Shaped(_)) {
+                        for cut in 1..=3usize {
+                            evals += 1;
+                            match mcx::par::guard(|| (op.run)(&enc[..enc.len() - cut], 0)) {
+                                Ok(out) => match out.res {
+                                    Err(ErrClass::EndOfInput) => {}
+                                    other => r.fail("strict-prefixes", None, json!({"op": op.name, "item": short, "removed_bytes": cut}), format!("a strict prefix of a valid encoding gave {:?} instead of the end-of-input error", other.map(|m| m.diag().chars().take(60).collect::<String>()))),
+                                },
+                                Err(p) => r.fail("strict-prefixes", None, json!({"op": op.name, "item": short, "removed_bytes": cut}), format!("panicked: {}", p)),
+                            }
+                        }
+                    }
+                }
+                r.add(sub, evals, nontrivial);
+                r.add_states(sub, 1, evals);
+                r.outcome(sub, "Ok", nontrivial);
+                r.outcome(sub, "Err", evals - nontrivial);
+            },
+            crate::hang_handler(r.property.clone()),
+        );
+        r.sample(sub, json!({"item": "[0, 1, 2, 0, ..] (65536 elements)", "op": "[u8;65536]"}));
+    }
+
     // ---- (B) type-directed re-framings
     {
         let sub = "B-type-directed";
